@@ -291,6 +291,7 @@ func Main(args []string) {
 	replay := fs.String("replay", "", "replay file")
 	only := fs.String("only", "", "restrict to mutation classes matching this regular expression (debugging)")
 	seedsRe := fs.String("seeds", "", "restrict to seeds matching this regular expression (debugging)")
+	budgetS := fs.Int("budget", 0, "override the internal deadline in seconds (debugging)")
 	dump := fs.Bool("dump", false, "print the seeds and the catalogue sizes, run nothing")
 	fs.Parse(args)
 	tier := evidence.Tier()
@@ -347,6 +348,9 @@ func Main(args []string) {
 	budget := 170 * time.Second
 	if tier == "thorough" {
 		budget = 22 * time.Minute
+	}
+	if *budgetS > 0 {
+		budget = time.Duration(*budgetS) * time.Second
 	}
 	deadline := start.Add(budget)
 	rep := evidence.NewReporter("C07")
